@@ -95,6 +95,10 @@ enum cc_stat cc_array_sized_new_conf(
     if (!conf->capacity || ex >= CC_MAX_ELEMENTS / conf->capacity)
         return CC_ERR_INVALID_CAPACITY;
 
+    /* The buffer size in bytes must not wrap around either. */
+    if (!element_size || conf->capacity > CC_MAX_ELEMENTS / element_size)
+        return CC_ERR_INVALID_CAPACITY;
+
     CC_ArraySized *ar = conf->mem_calloc(1, sizeof(CC_ArraySized));
 
     if (!ar)
